@@ -8,10 +8,7 @@ verus! {
 //@include spec/seqlemmas.rs
 //@include common/types.rs
 pub mod spec {
-//@item src/spec.rs | const LOCAL_FILE_HEADER_SIGNATURE
-//@item src/spec.rs | const CENTRAL_DIRECTORY_HEADER_SIGNATURE
-//@item src/spec.rs | const ZIP64_BYTES_THR
-//@item src/spec.rs | const ZIP64_ENTRY_THR
+//@include common/spec_consts.rs
 }
 pub open spec fn sig_at(d: Seq<u8>, p: int, sig: u32) -> bool { inb(d, p, 4) && de32(at(d, p, 4)) == sig }
 //@include spec/appnote_headers.rs
